@@ -1,10 +1,12 @@
 package main
 
 import (
+	"github.com/glowlabs-org/gca-backend/glow"
 	"net"
 	"os"
 	"path/filepath"
 	"runtime"
+	"verifh/vsched"
 
 	"github.com/ethereum/go-ethereum/crypto"
 )
@@ -21,4 +23,19 @@ func readFileMaybe(dir, name string) ([]byte, error) {
 		return nil, nil
 	}
 	return b, err
+}
+
+func goID() int64 { return vsched.GoID() }
+
+// refVerify is the harness's own statement of the documented signature
+// scheme, independent of glow.Verify: Keccak-256 of the signing bytes,
+// secp256k1 ECDSA over a key given as the 32-byte x coordinate of a point
+// with even y (0x02 prefix), signature r||s accepted only in canonical
+// low-s form.
+func refVerify(pub glow.PublicKey, data []byte, sig glow.Signature) bool {
+	comp := append([]byte{0x02}, pub[:]...)
+	if _, err := crypto.DecompressPubkey(comp); err != nil {
+		return false
+	}
+	return crypto.VerifySignature(comp, crypto.Keccak256(data), sig[:])
 }
